@@ -8,6 +8,8 @@
 From Coq Require Import List ZArith String.
 From MechV Require Import Base.Sexp Base.Obs Model.Fmt Proofs.FmtP.
 Import ListNotations.
+Open Scope string_scope.
+Open Scope list_scope.
 
 (* 1. Round trip: for EVERY well-formed program of the subset the canonical text parses back to the same tree
       (structural induction over the whole syntax, all list lengths and nesting depths). *)
@@ -86,7 +88,7 @@ Print Assumptions C08_symbols_unambiguous.
 Theorem C08_judge_sound : forall (p : prog) (o : obs8) (tag : string),
   judge_prog p o = v_ok tag ->
   observed_roundtrip o /\
-  (tag = "roundtrip"%string -> exists ob, o = O8Fmt ob /\ o_text ob = render (fmt_prog false p)).
+  (tag = "roundtrip" -> exists ob, o = O8Fmt ob /\ o_text ob = render (fmt_prog false p)).
 Proof. exact judge_prog_sound. Qed.
 Print Assumptions C08_judge_sound.
 
